@@ -21,6 +21,7 @@ type Module struct {
 	Typedefs   []*TypeDef
 	Groupings  []*Grouping
 	Top        []*DNode // top-level data nodes (own + nodes others augmented in are tracked on the DNode)
+	Extensions []string // names of extension statements defined here
 }
 
 type TypeDef struct {
@@ -165,6 +166,16 @@ func GenerateSet(t *tape.Tape, illFormed bool) *Set {
 		g.identities(m)
 		g.typedefs(m)
 		g.groupings(m)
+		if !m.Sub && t.Rare(4) {
+			for n := 1 + t.Draw(2); n > 0; n-- {
+				e := S("extension", g.name("ext"))
+				if t.Coin() {
+					e.Add(S("argument", "a"))
+				}
+				m.Root.Add(e)
+				m.Extensions = append(m.Extensions, e.Arg)
+			}
+		}
 	}
 	for _, m := range defOrder {
 		g.data(m)
@@ -697,7 +708,38 @@ func (g *gen) dataNode(m *Module, parent *DNode, depth int) *DNode {
 	case 0:
 		n := g.leaf(m, parent, false)
 		if parent != nil {
+			// now and then the leaf is a leafref to an earlier sibling leaf (relative path) or to any leaf of the
+			// module reached so far (absolute path); sometimes with require-instance
+			var sib []*DNode
+			for _, k := range parent.Kids {
+				if k.Kind == "leaf" && k.Mod == m && k.Stmt != nil && k.Stmt.Find("if-feature") == nil {
+					sib = append(sib, k)
+				}
+			}
+			if len(sib) > 0 && t.Rare(6) && n.Stmt.Find("default") == nil {
+				k := sib[t.Draw(len(sib))]
+				path := "../" + k.Name
+				switch t.Draw(10) {
+				case 1:
+					path = "../" + m.Prefix + ":" + k.Name
+				case 2:
+					path = g.schemaPath(m, k)
+				case 3:
+					path = "../" + k.Name + "/../" + k.Name
+				}
+				lr := S("type", "leafref", S("path", path))
+				if t.Rare(16) {
+					lr.Add(S("require-instance", []string{"true", "false"}[t.Draw(2)]))
+				}
+				n.Stmt.Kids[0] = lr
+				g.set.Probes["leafref"] = true
+			}
 			parent.Kids = append(parent.Kids, n)
+		}
+		if len(m.Extensions) > 0 && t.Rare(6) {
+			// an extension statement of a visible module on the leaf
+			n.Stmt.Add(S(m.Prefix+":"+m.Extensions[t.Draw(len(m.Extensions))], "x"))
+			g.set.Probes["extension_used"] = true
 		}
 		if t.Rare(5) {
 			n.Stmt.Add(S("must", g.xpathFor(m, n)))
@@ -848,7 +890,18 @@ func (g *gen) dataNode(m *Module, parent *DNode, depth int) *DNode {
 		// refine a leaf of the grouping
 		for _, gn := range gr.Nodes {
 			if gn.Kind == "leaf" && t.Rare(3) && gn.Stmt.Find("mandatory") == nil && gn.Stmt.Find("default") == nil {
-				u.Add(S("refine", gn.Name, S("description", "refined")))
+				rf := S("refine", gn.Name, S("description", "refined"))
+				switch t.Draw(5) {
+				case 1:
+					rf = S("refine", gn.Name, S("mandatory", "true"))
+				case 2:
+					rf = S("refine", gn.Name, S("config", "false"))
+				case 3:
+					rf = S("refine", gn.Name, S("must", "true()"))
+				case 4:
+					rf = S("refine", gn.Name, S("description", "refined"), S("reference", "r"))
+				}
+				u.Add(rf)
 				g.set.Probes["refine"] = true
 				break
 			}
